@@ -151,7 +151,7 @@ class Crate:
         """The helper-inlined view of this crate (pv/inline.py), built on first use."""
         if getattr(self, "_inlined", None) is None:
             from . import inline
-            self._inlined = Crate(inline.inlined_doc(self, protected=LOOKED_UP - UNPROTECT), self.file)
+            self._inlined = Crate(inline.inlined_doc(self, protected=LOOKED_UP - UNPROTECT, multi=UNPROTECT), self.file)
             self._inlined._inlined = self._inlined
         return self._inlined
 
